@@ -258,6 +258,8 @@ def asgi_call(app, r_or_scope, messages=None, *, extensions=None, send_fail_at=N
         if send_fail_at is not None and n >= send_fail_at:
             raise OSError("simulated send failure")
         m = dict(message)
+        if m.get("type") == "http.response.start" and "headers" in m and not isinstance(m["headers"], (list, tuple)):
+            m["headers"] = list(m["headers"])      # the spec asks for an iterable: a server consumes it once
         if m.get("type") == "http.response.zerocopysend":
             fd = m["file"]
             off = m.get("offset")
